@@ -40,6 +40,7 @@ type C19Case struct {
 	Bypass    bool    `json:"bypass_dedup,omitempty"` // hand duplicates to the service even if the node's extensible pool knows them
 	PoolFirst bool    `json:"pool_first,omitempty"`   // a received tx enters the mempool before (true) / after the consensus callback
 	AutoZero  bool    `json:"auto_zero,omitempty"`    // a timer armed with zero delay fires at once (as the wall-clock timer does)
+	Lim       C19Lim  `json:"lim"`                    // small block limits (zero value: defaults)
 	Pools     [][]int `json:"pools"`                  // initial mempool of node j: indices into the tx pool
 	Skew      []int   `json:"skew_ms,omitempty"`      // clock skew of node j
 	Evs       []C19Ev `json:"evs"`
@@ -50,6 +51,45 @@ const (
 	c19MaxHeights    = 5
 	c19MaxDeliveries = 2500
 )
+
+// c19GenLim draws small block limits: one, two or all three of them bind at 1..4 plain transactions per block.
+func c19GenLim(t *rapid.T) C19Lim {
+	var l C19Lim
+	which := rapid.IntRange(1, 7).Draw(t, "limits")
+	capa := func() int { return rapid.IntRange(1, 4).Draw(t, "cap") }
+	if which&1 != 0 {
+		l.MaxTx = capa()
+	}
+	if which&2 != 0 {
+		l.SizeTxs = capa()
+	}
+	if which&4 != 0 {
+		l.FeeTxs = capa()
+	}
+	return l
+}
+
+// c19GenStuffedPools: mempools holding more valid transactions than one block may carry, mostly the same on every
+// node, so that the primary's proposal is cut to exactly the limit.
+func c19GenStuffedPools(t *rapid.T, n int, l C19Lim) [][]int {
+	capa := l.Cap()
+	cnt := rapid.IntRange(capa+1, min(3*capa+2, 10)).Draw(t, "stuffed")
+	var plain []int
+	for k := 0; k < c19NTx; k++ {
+		if c19IsPlain(k) {
+			plain = append(plain, k)
+		}
+	}
+	common := rapid.Permutation(plain).Draw(t, "perm")[:cnt]
+	pools := make([][]int, n)
+	for j := range pools {
+		pools[j] = append([]int{}, common...)
+		if rapid.IntRange(0, 3).Draw(t, "extra") == 0 { // a node-local extra (short-lived / conflicting / plain)
+			pools[j] = append(pools[j], rapid.IntRange(0, c19NTx-1).Draw(t, "extratx"))
+		}
+	}
+	return pools
+}
 
 func c19GenPools(t *rapid.T, n int) [][]int {
 	mode := rapid.IntRange(0, 3).Draw(t, "poolmode") // 0 all empty, 1 identical, 2/3 different subsets
@@ -115,7 +155,16 @@ func c19GenSafety(t *rapid.T) C19Case {
 	c.Bypass = rapid.Bool().Draw(t, "bypass")
 	c.PoolFirst = rapid.Bool().Draw(t, "poolfirst")
 	c.AutoZero = rapid.IntRange(0, 2).Draw(t, "autozero") > 0
-	c.Pools = c19GenPools(t, c.N)
+	switch rapid.IntRange(0, 9).Draw(t, "limmode") {
+	case 0, 1:
+		c.Lim = c19GenLim(t)
+		c.Pools = c19GenStuffedPools(t, c.N, c.Lim)
+	case 2:
+		c.Lim = c19GenLim(t)
+		c.Pools = c19GenPools(t, c.N)
+	default:
+		c.Pools = c19GenPools(t, c.N)
+	}
 	if rapid.Bool().Draw(t, "skewed") {
 		c.Skew = rapid.SliceOfN(rapid.SampledFrom([]int{0, 0, 1, 500, 3000}), c.N, c.N).Draw(t, "skew")
 	}
@@ -320,7 +369,7 @@ func c19CheckSafety(c C19Case, o *vt.Obs) (err error) {
 	if err != nil {
 		return fmt.Errorf("HARNESS: world: %w", err)
 	}
-	net, err := c19NewNet(w, c.Pools, c.Skew, c.Bypass, c.PoolFirst)
+	net, err := c19NewNet(w, c.Pools, c.Skew, c.Bypass, c.PoolFirst, c.Lim)
 	defer net.close()
 	if err != nil {
 		return fmt.Errorf("HARNESS: network: %w", err)
@@ -377,6 +426,9 @@ func c19Classify(net *c19Net, o *vt.Obs, w *c19World) {
 	}
 	h, _ := net.maxHeight()
 	o.Labelf("n=%d", len(net.nodes))
+	if net.lim.Cap() > 0 {
+		o.Label("small-block-limits")
+	}
 	o.Labelf("blocks-produced=%d", h-w.baseH)
 	if net.maxView >= 2 {
 		o.Label("view>=2")
